@@ -21,6 +21,7 @@ from wpull.document.html import HTMLReader
 from wpull.path import anti_clobber_dir_path, parse_content_disposition, \
     PathNamer
 import wpull.util
+from wpull.errors import ProtocolError
 from wpull.protocol.abstract.request import BaseRequest, BaseResponse, \
     SerializableMixin
 from wpull.protocol.http.request import Response as HTTPResponse
@@ -257,7 +258,10 @@ class BaseFileWriterSession(BaseWriterSession):
         # enums that appear to define this case, it is checked throughout
         # the code, but the HTTP function doesn't even use them.
         # FIXME: unit test is needed for this case
-        raise IOError(
+        # An error of this URL (the server is free to ignore a range
+        # request), not a failure of the local file system that would end
+        # the whole crawl.
+        raise ProtocolError(
             _('Server not able to continue file download: {filename}.')
             .format(filename=self._filename))
 
